@@ -1,5 +1,5 @@
 #!/usr/bin/env python3
-"""C15 - vectorized execution returns what row execution returns (measure engine over gRPC, both flag settings)."""
+"""C15 - vectorized execution returns what row execution returns (measure and stream engines over gRPC, both flag settings)."""
 import sys
 sys.path.insert(0, '/verif/tools'); sys.path.insert(0, '/verif/checks')
 from vf import core
@@ -26,6 +26,17 @@ for name, flags in (('row', ['--measure-vectorized-enabled=false']), ('vec', ['-
                     ('vec-batch2', ['--measure-vectorized-enabled=true', '--measure-vectorized-batch-size=2'])):
     fams.append(dict(name='measure-' + name, series=S, times=[1, 2, 3], versions=[1, 2], versioned=True, maxrows=1, maxtotal=3,
                      maxops=3, graphops=0, sims=40 if c.quick else 400, simops=12, queries=qs, flags=flags, index='inverted', tags_by_series=True, sim=dict(maxrows=3, maxtotal=8)))
+# stream engine: the row path is the documented roll-back rail (--stream-vectorized-enabled=false), the vectorized path
+# the default; both must give the spec's answers for criteria (post-scan filter / inverted / skipping index), time order
+# with windows over every shape of part time ranges, and order by index rule
+import stream_fams
+for name, flags in (('row', ['--stream-vectorized-enabled=false']), ('vec', ['--stream-vectorized-enabled=true']),
+                    ('vec-batch2', ['--stream-vectorized-enabled=true', '--stream-vectorized-batch-size=2'])):
+    for f in stream_fams.c15(c):
+        f = dict(f)
+        f['name'] = f['name'] + '-' + name
+        f['flags'] = flags
+        fams.append(f)
 def nontrivial(st):
     ops = [x['last'].get('op') for x in st[1:]]
     return 'queryall' in ops and ('flush' in ops or 'merge' in ops)
@@ -33,7 +44,7 @@ tot, stats, samples, nontriv, cover = ec.run_families(c, fams, binp, nontrivial)
 c.cov.update(programs=stats.get('criteria_queries', 0), disagreements_checked=stats.get('criteria_queries', 0) + stats.get('cover_queries', 0),
              states=tot['states'], transitions=tot['transitions'], behaviours_replayed=tot['behaviours'], steps_replayed=tot['steps'],
              evaluations=tot['behaviours'], distinct_nontrivial=nontriv, queries_per_family=len(qs),
-             rule='the SAME TLC behaviours (same seed: same datasets, part layouts, maintenance steps and %d queries: projections, criteria, AND/OR, order by time ASC/DESC with offset/limit) are executed against stand-alone servers started with --measure-vectorized-enabled=false, =true and =true with batch size 2; every response must equal the spec answer, hence the pipelines agree with each other on everything the spec fixes (row set, values bit-exact, order, window); programs = queries executed' % len(qs),
+             rule='the SAME TLC behaviours (same seed: same datasets, part layouts, maintenance steps and %d queries: projections, criteria, AND/OR, order by time ASC/DESC with offset/limit) are executed against stand-alone servers started with --measure-vectorized-enabled / --stream-vectorized-enabled =false, =true and =true with batch size 2; every response must equal the spec answer, hence the pipelines agree with each other on everything the spec fixes (row set, values bit-exact, order, window); programs = queries executed' % len(qs),
              harness_stats=stats, action_coverage=cover,
              samples=[{'family': s['family'], 'ops': [o if o.get('op') != 'queryall' else {'op': 'queryall', 'n': len(o['res'])} for o in s['ops']]} for s in samples])
 c.assumptions += ['single node; columnar frames between data node and coordinator are not exercised yet; aggregation/top-N equivalence is covered at plan level by C10',
